@@ -462,7 +462,7 @@ func (c *Ctx) c05Fixtures() {
 }
 
 func runC05(c *Ctx) {
-	c.R.Rule = "every saved package goes through an independent validator (archive/zip + XML tokenizer; no excelize code): unique entries, well-formed XML parts, content types, relationship targets and r:id resolution, sheet list (unique valid names and ids, one sheet per part), defined names, rows and cells strictly ascending and consistent with references, shared-string / cell-format / differential-format / number-format / font / fill / border indices in range, merged ranges disjoint, calc chain pointing at formula cells, table refs and names. Sources: random sheet histories (values, formulas, styles, merges, attributes, hyperlinks, saves) with and without structural edits, random workbook histories (new, delete, move, rename, copy, visibility, grouping, defined names), random merge/unmerge histories over a 8x8 grid (mostly overlapping ranges, either corner order), one scenario per feature family (charts, chart sheet, pictures, shapes, comments, form controls, sparklines, pivot table + slicer, tables + auto filter, conditional formats + data validations + defined names + hyperlinks, delete/copy/rename of a loaded sheet, stream writer, styles) each also reopened, edited and saved again, and edited fixture files. non-trivial = all"
+	c.R.Rule = "every saved package goes through an independent validator (archive/zip + XML tokenizer; no excelize code): unique entries, well-formed XML parts, content types, relationship targets and r:id resolution, sheet list (unique valid names and ids, one sheet per part), defined names, rows and cells strictly ascending and consistent with references, shared-string / cell-format / differential-format / number-format / font / fill / border indices in range, merged ranges disjoint, calc chain pointing at formula cells, table refs and names. Sources: random sheet histories (values, formulas, styles, merges, attributes, hyperlinks, saves) with and without structural edits, random workbook histories (new, delete, move, rename, copy, visibility, grouping, defined names), random merge/unmerge histories over a 8x8 grid (mostly overlapping ranges, either corner order), random drawing-layer histories over three worksheets (pictures of two image contents in shared cells and shared media parts, charts, shapes, comments, their deletions, sheet copy and deletion, with reopen steps so untouched parts exist only as package bytes), one scenario per feature family (charts, chart sheet, pictures, shapes, comments, form controls, sparklines, pivot table + slicer, tables + auto filter, conditional formats + data validations + defined names + hyperlinks, delete/copy/rename of a loaded sheet, stream writer, styles) each also reopened, edited and saved again, and edited fixture files. non-trivial = all"
 	n := 60
 	if c.Thorough() {
 		n = 1500
@@ -470,6 +470,7 @@ func runC05(c *Ctx) {
 	c.c05SheetHistories(n)
 	c.c05WorkbookHistories(n)
 	c.c05Merges(n * 3)
+	c.c05DrawingHistories(n * 2)
 	c.c05Features()
 	c.c05Fixtures()
 	c.c05ModelRows(n * 2)
